@@ -128,7 +128,7 @@ var cfgType = reflect.TypeOf(profile.HavocConfig{})
 
 var identLike = []string{"a", "Neo", "5pider", "demo", "x64", "http", "agent_1", "svc-endpoint", "0.0.0.0", "127.0.0.1", "example.com:443",
 	"password1234", "round-robin", "POST", "/index.php", "Mozilla/5.0 (Windows NT 6.1; WOW64)", "2006-01-02 15:04:05", "8:00-17:00",
-	"data/x86_64-w64-mingw32-cross/bin/x86_64-w64-mingw32-gcc", "Content-type: text/plain", "deadbeef", "0", "41", "f", "A4"}
+	"data/x86_64-w64-mingw32-cross/bin/x86_64-w64-mingw32-gcc", "Content-type: text/plain", "deadbeef", "0", "41", "f", "A4", "for", "null", "true", "if"}
 
 var specialPieces = []string{`"`, `\`, `$`, `%`, `{`, `}`, `~`, `#`, `/*`, `*/`, `//`, `'`, "<<EOT", "EOT", "=", "[", "]", " ", "  ", ",", ":", "`", "?", "\\\\", `\"`, `\n`, `\x41`, `\u0041`, `C:\Windows\System32\notepad.exe`, `\\.\pipe\demo`}
 
@@ -324,7 +324,7 @@ func genOptions(t *rapid.T) genOpts {
 	o.rich = rapid.SampledFrom([]int{0, 1, 2, 2, 2}).Draw(t, "rich")
 	o.maxRepeat = rapid.SampledFrom([]int{1, 2, 4}).Draw(t, "maxrep")
 	o.maxColl = rapid.SampledFrom([]int{1, 3, 5}).Draw(t, "maxcoll")
-	o.presence = rapid.SampledFrom([]int{20, 50, 80, 100}).Draw(t, "presence")
+	o.presence = rapid.SampledFrom([]int{20, 50, 80, 90, 100}).Draw(t, "presence")
 	o.zeroPct = rapid.SampledFrom([]int{10, 40, 80}).Draw(t, "zeropct")
 	return o
 }
